@@ -4,7 +4,7 @@ CONSTANTS
   ViolKinds = {"v_undecl", "v_macro", "v_define"}
   MaxItems = 3
   MinItems = 0
-  Devs = {"NewlineLocNextLine", "SetlocAfterLookahead", "DotDotRestore", "LineBase0"}
+  Devs = {"NewlineLocNextLine", "SetlocAfterLookahead", "DotDotRestore"}
   Emit = TRUE
 INVARIANTS Inv_Emit
 CHECK_DEADLOCK FALSE
